@@ -66,7 +66,7 @@ func NewRemoteReplicator(
 		cliFct:     cliFct,
 		stateMgr:   stateMgr,
 		isSuspend:  atomic.NewBool(false),
-		suspend:    make(chan struct{}),
+		suspend:    make(chan struct{}, 1),
 		statistics: metrics.NewStorageRemoteReplicatorStatistics(channel.State.Database, channel.State.ShardID.String()),
 		logger:     logger.GetLogger("Replica", "RemoteReplicator"),
 	}
@@ -86,9 +86,12 @@ func (r *remoteReplicator) State() *state {
 
 func (r *remoteReplicator) handleNodeStateChangeEvent(state models.NodeStateType) {
 	if state == models.NodeOnline {
-		if r.isSuspend.CompareAndSwap(true, false) {
+		// leave (at most) one wake-up token: a loop that is parked, or that has seen the follower offline and is
+		// about to park, finds it; a stale token only makes the loop re-check the follower's liveness once.
+		select {
+		case r.suspend <- struct{}{}:
 			r.logger.Info("notify replicator follower node is online", logger.String("replicator", r.String()))
-			r.suspend <- struct{}{} // notify follower node online
+		default:
 		}
 	}
 }
@@ -149,6 +152,7 @@ func (r *remoteReplicator) IsReady() bool {
 			r.state.Store(&state{state: models.ReplicatorFailureState, errMsg: "follower node is offline"})
 			verifhook.Yield("c08-suspend-marked")
 			<-r.suspend // wait follower node online
+			r.isSuspend.Store(false)
 		}
 		return r.IsReady() // check replicator is ready now
 	}
